@@ -50,6 +50,9 @@ mod toml;
 mod transcode;
 mod yaml;
 
+#[cfg(feature = "verif")]
+pub mod verif;
+
 pub use error::{Error, Result};
 
 /// Translates the contents of a single input slice to a different format.
